@@ -60,6 +60,7 @@ def run(ctx):
     S2 = rep.rule('C07.R3', 'the reload id is bumped inside the write-guard region, after the value swap (shared with C07)', floor=5)
     S3 = rep.rule('C07.R4', 'one writer (shared with C07)', floor=1)
     S1 = rep.rule('C09.R3', 'the dependency graph is updated exactly on a successful reload (shared with C09, C05)', floor=2)
+    S4 = rep.rule('C18.R3', 'a watcher decides and remembers with ONE snapshot of the reload id: reloaded() = last_reload_id.update(reload_id.load()) -- a second load between the answer and the update loses the rewrite that lands in between (shared with C18, watcher clause)', floor=1)
     for cfg, F in ctx.cfgs():
         hr = 'hot-reloading' in ctx.cfg_features[cfg]
         r4(R4, cfg, F, hr)
@@ -77,7 +78,13 @@ def run(ctx):
         # write-guard region, after the swap
         from c07 import r3 as writer_region
         writer_region(S2, S3, cfg, F)
-        for r in (R1, R2, R3, S1, S2, S3):
+        from c18 import watcher as one_snapshot
+        wb = F.one(r"^entry::ReloadWatcher::<'a>::reloaded$")
+        if not wb:
+            S4.missing(cfg, 'entry::ReloadWatcher::reloaded')
+        else:
+            one_snapshot(S4, cfg, wb)
+        for r in (R1, R2, R3, S1, S2, S3, S4):
             r.finish_cfg(cfg)
 
 
